@@ -51,8 +51,14 @@ Print Assumptions C10_document.
    blanks being stripped characters such as the newline and space of a folded field *)
 Theorem C10_list_field : forall (dl : ascii) (st : ascii -> bool), st dl = false -> forall items, items <> [] ->
   Forall (L10.item_ok dl st) items ->
+  (* the value is not the empty one: two items or more, or an element that is not empty *)
+  ((exists w1 e w2, In (w1, e, w2) items /\ e <> []) \/ (2 <= List.length items)%nat) ->
   L10.decode_list dl st (L10.render_list dl items) = map (fun it => snd (fst it)) items.
-Proof. exact L10.C10_list_field. Qed.
+Proof. intros dl st H items NE W NT. apply L10.C10_list_field; auto. now apply L10.render_not_empty. Qed.
+(* and an empty value - nothing, or nothing but stripped bytes - is the empty list (repair of the r12 finding: "E: " used to
+   be one empty element) *)
+Theorem C10_list_field_empty : forall (dl : ascii) (st : ascii -> bool) v, L10.trim st v = [] -> L10.decode_list dl st v = [].
+Proof. exact L10.decode_list_empty. Qed.
 Print Assumptions C10_list_field.
 (* newline-delimited lists (Files and the Checksums fields): stripped bytes in front (the newline of the multiline
    convention) and behind (the newline the reader leaves) never change the decoded lines *)
